@@ -8,7 +8,9 @@ import (
 	"os/exec"
 	"path/filepath"
 	"regexp"
+	"strings"
 	"sync"
+	"syscall"
 	"time"
 
 	"github.com/yaricom/goNEAT/v4/experiment"
@@ -109,6 +111,10 @@ func c20Enumerate(tier string) []c20Case {
 	}
 	for i := 0; i < nRunner; i++ {
 		cases = append(cases, c20Case{Runs: 2 + i%3, Gens: 2 + i%2, Fault: c20Fault{Kind: "runner", R: []int{0, 1, 2, 4}[i%4], G: i}})
+	}
+	// the runner interrupted by a signal in the middle of a long run: the cancelled context must stop it
+	for i := 0; i < 1+nRunner/12; i++ {
+		cases = append(cases, c20Case{Runs: 100000, Gens: 30, Fault: c20Fault{Kind: "runner_interrupted", G: i}})
 	}
 	c20CaseCache[tier] = cases
 	return cases
@@ -224,7 +230,7 @@ func init() {
 		Run:         runC20,
 		Exhaustive:  true,
 		Required: []string{"cases.none", "cases.eval_error", "cases.cancel_in_eval", "cases.cancel_in_epoch_evaluated", "cases.cancel_in_trial_started",
-			"cases.cancel_in_trial_finished", "cases.cancel_mid_epoch", "cases.parallel", "cases.no_observer", "cases.runner", "cases.eval_error_solved", "cases.eval_error_deadline", "cases.trials_preallocated", "cases.experiment_reused_after_longer_run", "trials.solved", "trials.unsolved", "canceled.returned"},
+			"cases.cancel_in_trial_finished", "cases.cancel_mid_epoch", "cases.parallel", "cases.no_observer", "cases.runner", "runner.stopped_after_interrupt", "cases.eval_error_solved", "cases.eval_error_deadline", "cases.trials_preallocated", "cases.experiment_reused_after_longer_run", "trials.solved", "trials.unsolved", "canceled.returned"},
 	})
 }
 
@@ -403,6 +409,10 @@ func runC20(c *Ctx, idx int) {
 	c.Count("cases."+cs.Fault.Kind, 1)
 	if cs.Fault.Kind == "runner" {
 		c20Runner(c, cs)
+		return
+	}
+	if cs.Fault.Kind == "runner_interrupted" {
+		c20RunnerInterrupted(c, cs)
 		return
 	}
 	if cs.Parallel {
@@ -667,4 +677,67 @@ func isPrefix(a, b []c20Event) bool {
 		}
 	}
 	return true
+}
+
+// c20RunnerInterrupted starts the runner on a run that would take hours (100000 trials), interrupts it and expects it to
+// stop: a run that goes on is told apart from one that stops by the number of further trials it starts, not by a tight
+// deadline (the verdict falls after the process had two minutes to end; a runner that ignores the interrupt is still
+// working through its trials then)
+func c20RunnerInterrupted(c *Ctx, cs c20Case) {
+	bin := os.Getenv("VERIFMON_RUNNER")
+	if bin == "" {
+		c.Inconclusive("the experiment runner binary was not built (VERIFMON_RUNNER is not set)")
+		return
+	}
+	dir, err := os.MkdirTemp(workDir("C20"), "runner-int")
+	if err != nil {
+		panic("harness: " + err.Error())
+	}
+	defer os.RemoveAll(dir)
+	optsText, err := os.ReadFile(filepath.Join(repoRoot(), "data", "xor_test.neat.yml"))
+	if err != nil {
+		panic("harness: " + err.Error())
+	}
+	text := string(optsText)
+	for k, v := range map[string]string{"num_runs": "100000", "num_generations": fmt.Sprint(cs.Gens), "pop_size": "100"} {
+		re := regexp.MustCompile(`(?m)^` + k + `:.*$`)
+		text = re.ReplaceAllString(text, k+": "+v)
+	}
+	optsPath := filepath.Join(dir, "options.neat.yml")
+	_ = os.WriteFile(optsPath, []byte(text), 0o644)
+	cmd := exec.Command(bin, "-out", filepath.Join(dir, "out"), "-context", optsPath, "-genome", filepath.Join(repoRoot(), "data", "xorstartgenes"),
+		"-experiment", "XOR", "-seed", fmt.Sprint(77+cs.Fault.G), "-log_level", "error")
+	cmd.Dir = dir
+	var out strings.Builder
+	cmd.Stdout, cmd.Stderr = &out, &out
+	if err = cmd.Start(); err != nil {
+		c.Inconclusive("the experiment runner could not be started: %v", err)
+		return
+	}
+	done := make(chan error, 1)
+	go func() { done <- cmd.Wait() }()
+	time.Sleep(1500 * time.Millisecond)
+	select {
+	case <-done:
+		c.Inconclusive("the experiment runner ended before it could be interrupted")
+		return
+	default:
+	}
+	_ = cmd.Process.Signal(syscall.SIGINT)
+	c.Count("runner.interrupted", 1)
+	select {
+	case <-done:
+		// it stopped; HEAD ends with "context canceled"
+		c.Count("runner.stopped_after_interrupt", 1)
+	case <-time.After(2 * time.Minute):
+		_ = cmd.Process.Kill()
+		<-done
+		c.Violate("runner-ignores-cancellation", map[string]interface{}{"case": cs, "key": "runner", "output_tail": tailString(out.String(), 800)},
+			"the experiment runner was interrupted (SIGINT cancels its context) in the middle of a run of 100000 trials and was still running two minutes later")
+		return
+	}
+	h := newHasher()
+	h.i(-8)
+	h.i(cs.Fault.G)
+	c.Distinct(h.sum())
 }
